@@ -55,7 +55,7 @@ LWErr == /\ R.e \in {"lw_err", "lf_err", "lc_err"} /\ lclosed
          /\ UNCHANGED <<cfgv, dres, lres, dW, lW, dR, lR, dclosed, lclosed>>
 DClose == /\ R.e \in {"dc", "dc_pending", "ddrop"} /\ dclosed' = TRUE /\ UNCHANGED <<cfgv, dres, lres, dW, lW, dR, lR, lclosed>>
 LClose == /\ R.e \in {"lc", "lc_pending", "ldrop"} /\ lclosed' = TRUE /\ UNCHANGED <<cfgv, dres, lres, dW, lW, dR, lR, dclosed>>
-Quiet == /\ R.e \in {"dpending", "lpending", "skip", "dl", "drain", "df", "lf", "df_pending", "lf_pending",
+Quiet == /\ R.e \in {"dpending", "lpending", "skip", "dl", "wb", "drain", "df", "lf", "df_pending", "lf_pending",
                      "dw_pending", "lw_pending", "dr_pending", "lr_pending"}
          /\ UNCHANGED <<cfgv, dres, lres, dW, lW, dR, lR, dclosed, lclosed>>
 (* after the drain: both sides have an outcome; success = same protocol and all data through *)
